@@ -10,6 +10,7 @@ from torchtree.core.model import CallableModel
 from torchtree.core.utils import process_object, register_class
 from torchtree.distributions.distributions import DistributionModel
 from torchtree.typing import ID
+from torchtree.variational.kl import _log_q
 
 
 @register_class
@@ -45,7 +46,7 @@ class VR(CallableModel):
     def _call(self, *args, **kwargs) -> torch.Tensor:
         samples = kwargs.get('samples', self.samples)
         self.q.rsample(samples)
-        log_w = (1.0 - self.alpha) * (self.p() - self.q())
+        log_w = (1.0 - self.alpha) * (self.p() - _log_q(self.q, samples))
         log_w_mean = torch.logsumexp(log_w, dim=-1) - math.log(log_w.shape[-1])
         return log_w_mean.mean(-1) / (1.0 - self.alpha)
 
